@@ -105,7 +105,7 @@ def run_shard(shard):
         return dict(status="harness", reports=[], rc=None, tail=str(e), wall=0.0, cmd=cmd)
     try:
         out, err = p.communicate(timeout=shard.get("timeout", 600))
-        status = "ok" if p.returncode == 0 else "crash"
+        status = "ok" if p.returncode == 0 else ("watchdog" if p.returncode == 4 else "crash")
     except subprocess.TimeoutExpired:
         try:
             os.killpg(p.pid, signal.SIGKILL)
@@ -191,7 +191,7 @@ def run_check(pid, tier, seed, only_shards=None):
     # retry timeouts / harness-level failures once with a doubled budget
     retried = []
     for shard, res in results:
-        if res["status"] == "timeout" or (res["status"] == "crash" and not spec.get("crash_is_violation") and not res["reports"]):
+        if res["status"] in ("timeout", "watchdog") or (res["status"] == "crash" and not spec.get("crash_is_violation") and not res["reports"]):
             s2 = dict(shard)
             s2["timeout"] = shard["timeout"] * 2
             res2 = run_shard(s2)
@@ -207,7 +207,17 @@ def run_check(pid, tier, seed, only_shards=None):
 
     for shard, res in results:
         mine = [r for r in res["reports"] if r.get("property") == pid]
-        if res["status"] == "timeout":
+        if shard.get("finding"):
+            # a shard that exercises a configuration recorded as a known finding: whatever goes
+            # wrong in it is attributed to that finding (and nothing it reports counts otherwise)
+            bad = res["status"] != "ok" or any(r.get("violations") for r in res["reports"])
+            violations = [(s_, v_) for (s_, v_) in violations if s_ is not shard]
+            if bad:
+                detail = "status=%s rc=%s; %s" % (res["status"], res["rc"], "; ".join(
+                    "%s:%s" % (r.get("property"), v.get("sig")) for r in res["reports"] for v in r.get("violations", [])[:3])[:600])
+                violations.append((shard, dict(sig=shard["finding"], detail=detail + "\n" + res["tail"][-600:])))
+            continue
+        if res["status"] in ("timeout", "watchdog"):
             harness_problems.append("watchdog fired (inconclusive): %s" % " ".join(res["cmd"][1:]))
         elif res["status"] == "harness":
             harness_problems.append("could not start: %s" % res["tail"])
